@@ -2,7 +2,7 @@
     nothing else.  Statements quoted by type from HistFacts.v, LifeFacts.v,
     MbFactsA.v (printed by [Check]). *)
 From MW Require Import Base Store Monad Usage Server Websocket Service Findings Inv Obs
-     ProtoFacts StepFacts MbFactsA LifeFacts HistFacts Corollaries CrashHist Inst_Params.
+     ProtoFacts StepFacts MbFactsA LifeFacts HistFacts Corollaries CrashHist Inst_Params MbStable.
 Local Open Scope list_scope.
 
 (** after ANY history from the initial state without crash events (any number of
@@ -92,6 +92,13 @@ Print Assumptions C01_ledger_c_no_crash.
     one whose add crashed before its commit is lost *)
 Example C01_crash_nonvacuous : ltac:(let t := type of crash_ledger_nonvacuous in exact t).
 Proof. exact crash_ledger_nonvacuous. Qed.
+
+
+(** the ledger is emptied "whenever the mailbox has no row"; a mailbox loses its row by
+    nothing but its last close or its expiry (MbStable.v), over every history *)
+Theorem C01_discarded_only_by_deletion : ltac:(let t := type of mailbox_stable_run in exact t).
+Proof. exact mailbox_stable_run. Qed.
+Print Assumptions C01_discarded_only_by_deletion.
 
 
 (** two messages survive the adder's disconnect, another mailbox's traffic and a
